@@ -23,8 +23,15 @@ MOVES = [(-1, 0), (0, -1), (1, 0), (0, 1)]  # (d_row, d_col) of actions 0..3
 ROWS, COLS = 31, 28
 
 
+def _dims(cfg):
+    if cfg.get("maze") == "small":  # the harness' 12x13 ASCII maze (jmon.envs.PACMAN_SMALL_MAZE)
+        return 12, 13
+    return ROWS, COLS
+
+
 def params(cfg):
-    return {"time_limit": cfg.get("time_limit") or 1000, "rows": ROWS, "cols": COLS}
+    r, c = _dims(cfg)
+    return {"time_limit": cfg.get("time_limit") or 1000, "rows": r, "cols": c}
 
 
 def RANDOM_GENERATOR(cfg):
@@ -100,6 +107,7 @@ def illegal_effect(P, S, a, S2, ev, agent):
 
 
 def physical(P, S_prev, a, S):
+    ROWS, COLS = P.params["rows"], P.params["cols"]  # per-configuration maze size
     out = []
     g = S["grid"]
     P.hit("player_and_ghosts_on_free_cells")
@@ -107,7 +115,7 @@ def physical(P, S_prev, a, S):
         return [f"grid_shape: grid shape {g.shape} != {(ROWS, COLS)}"]
     r, c = _player(S)
     if not (0 <= r < ROWS and 0 <= c < COLS):
-        out.append(f"player_in_grid: player at (row {r}, col {c}) outside the 31x28 maze")
+        out.append(f"player_in_grid: player at (row {r}, col {c}) outside the {ROWS}x{COLS} maze")
     elif int(g[r, c]) != 1:
         out.append(f"player_not_in_wall: player at (row {r}, col {c}) is inside a wall")
     else:
@@ -165,6 +173,7 @@ def physical(P, S_prev, a, S):
 
 
 def instance(P, S0, ev):
+    ROWS, COLS = P.params["rows"], P.params["cols"]  # per-configuration maze size
     out = physical(P, None, None, S0)
     g = S0["grid"]
     P.hit("ascii_instance")
@@ -206,6 +215,7 @@ def other_end_reason(P, S_prev, a, S, ev):
 
 
 def check_obs(P, S, O):
+    ROWS, COLS = P.params["rows"], P.params["cols"]  # per-configuration maze size
     out = []
     P.hit("obs_copies")
     for f in ("grid", "ghost_locations", "power_up_locations", "pellet_locations"):
@@ -284,7 +294,13 @@ def pol_frontier(ctx):
     free, pos, ghosts, st = _np_state(ctx)
     R, C = free.shape
     if "pm_targets" not in ctx:
-        cells = [t for t in FRONTIER_CELLS if free[t]]
+        if (R, C) == (ROWS, COLS):
+            cells = [t for t in FRONTIER_CELLS if free[t]]
+        else:  # other mazes: tunnel mouths (free border cells) and the free cells nearest to the four corners
+            fc = [(int(r), int(c)) for r, c in np.argwhere(free)]
+            cells = [t for t in fc if t[1] in (0, C - 1) or t[0] in (0, R - 1)]
+            for corner in ((0, 0), (0, C - 1), (R - 1, 0), (R - 1, C - 1)):
+                cells.append(min(fc, key=lambda t: abs(t[0] - corner[0]) + abs(t[1] - corner[1])))
         order = ctx["rng"].permutation(len(cells)).tolist()
         ctx["pm_targets"] = [cells[i] for i in order]
         ctx["pm_bump"] = 0
